@@ -23,6 +23,8 @@ for d in seeded/${ONLY:-}*/; do
     echo "$(basename $d): $id $tier rc=$rc (deliberately not claimed, see meta.json) $(echo "$out" | grep -E '^(VIOLATION|INCONCLUSIVE|HELD)' | head -1 | cut -c1-120)"
     continue
   fi
+  mtier=$(python3 -c "import json;print(json.load(open('${d}meta.json')).get('tier',''))")
+  [ -n "$mtier" ] && [ "$mtier" != "$tier" ] && { echo "$(basename $d): caught in the $mtier tier only (meta.json) - skipped in this $tier replay"; continue; }
   for s in ${SEEDS:-0}; do
     hit=0
     for c in $want; do
